@@ -21,7 +21,7 @@
     (after the flush rounds of the epilogue everything counted by the censuses has been dropped). *)
 From Coq Require Import ZArith NArith List Bool.
 Import ListNotations.
-From Stk Require Import Lib.U Gen.SrcCount R.Syntax R.Rt R.Mon R.Count R.OneStep R.C16Proofs R.LinUafInv R.LinFlags R.LinOnce3 R.C05Proofs.
+From Stk Require Import Lib.U Gen.SrcCount R.Syntax R.Rt R.Mon R.Count R.OneStep R.C16Proofs R.LinUafInv R.LinFlags R.LinOnce3 R.C05Proofs R.F8Witness.
 Local Open Scope Z_scope.
 
 Theorem C16_heap_partial :
@@ -94,3 +94,17 @@ Example C16_leak_refuted :
   exists t, exec DGlobal 2000 f5_prog = Done t /\ In (ELeak LK_CLO 1) t /\ C16_ok t = false /\
             C16_once_ok K16_lin t = true /\ C16_once_ok (fun k => negb (K16_lin k)) t = true.
 Proof. eexists. split; [vm_compute; reflexivity|]. split; [vm_compute; tauto|]. repeat split; vm_compute; reflexivity. Qed.
+
+(* known finding F8 (PendingTermRefCycle), at model level: a Ready actor whose state holds a non-owning reference to an
+   actor whose notifier refers back to it, owners dropped after the last run, Stakker dropped: both values and both
+   notifiers leak, no class flag of the model fires (the check decides this class on the program text); with a run
+   before the Stakker drop everything is released *)
+Example F8_refuted :
+  exists t, exec DGlobal 3000 f8_prog = Done t /\ no_class_flag t = true /\
+            In (ELeak LK_VAL 2) t /\ In (ELeak LK_VAL 3) t /\ In (ELeak LK_NOTIFY 2) t /\ In (ELeak LK_NOTIFY 3) t /\
+            C16_ok t = false /\ C03_ok t = false.
+Proof. exact F8_refuted_proved. Qed.
+Example F8_control :
+  exists t, exec DGlobal 3000 f8_control = Done t /\ C16_ok t = true /\ C03_ok t = true /\
+            In (ENotify 2 (Some CDrop)) t /\ In (ENotify 3 (Some CDrop)) t.
+Proof. exact F8_control_proved. Qed.
